@@ -32,6 +32,7 @@ class RngModel:
         self.real = np.random.RandomState(12345)
         self.global_draws = []  # draws performed while the state is derived from s0
         self.ndraws = 0
+        self.draw_terms = []  # (state term, shape) at every draw
         self.memo = {}
 
     # ---- numpy.random API used by cola ---------------------------------------------------------
@@ -62,6 +63,7 @@ class RngModel:
             self.global_draws.append(f"{what}{shape}")
         self.ndraws += 1
         key = (self.term.sexpr(), shape, what)
+        self.draw_terms.append((key[0], shape))
         vals = self.real.randn(*shape) if shape else self.real.randn()
         if self.mode == "symbolic" and self.T is not None and self.T.sym:
             if key not in self.memo:
